@@ -183,7 +183,7 @@ func (e *Enc) encAlloc(fr *Frame, st *State, in *ssa.Alloc) {
 			key := "S|" + typeStr(arr.Elem()) + "|" + lf.Path
 			sort := "(Array Int (Array Int " + lf.Sort + "))"
 			h := e.heapGet(st, key, sort)
-			e.heapSet(st, key, sort, "(store "+h+" "+r+" ((as const (Array Int "+lf.Sort+")) "+e.zero(lf.Sort)+"))")
+			e.heapSet(st, key, sort, "(store "+h+" "+r+" "+e.zeroArray(lf.Sort)+")")
 		}
 		return
 	}
@@ -805,7 +805,7 @@ func (e *Enc) encMakeSlice(fr *Frame, st *State, in *ssa.MakeSlice) *Val {
 		key := "S|" + typeStr(sl.Elem()) + "|" + lf.Path
 		sort := "(Array Int (Array Int " + lf.Sort + "))"
 		h := e.heapGet(st, key, sort)
-		e.heapSet(st, key, sort, "(store "+h+" "+r+" ((as const (Array Int "+lf.Sort+")) "+e.zero(lf.Sort)+"))")
+		e.heapSet(st, key, sort, "(store "+h+" "+r+" "+e.zeroArray(lf.Sort)+")")
 	}
 	return &Val{T: in.Type(), L: []Sc{{r, "Int"}, {"0", "Int"}, {ln, "Int"}, {cp, "Int"}}}
 }
@@ -1118,4 +1118,20 @@ func (e *Enc) entryRefFact(key, sort string, lf Leaf, m, k string) {
 	}
 	a0 := e.declConst(sym(key+"@0"), sort)
 	e.assert("(=> (<= " + m + " alloc@0) (<= (select (select " + a0 + " " + m + ") " + k + ") alloc@0))")
+}
+
+// zeroArray: the all-zero backing array of element sort s. For uninterpreted sorts the zero element is a declared
+// constant, which is not a value, and cvc5 rejects it as the argument of a constant array; such an array is introduced
+// as a declared constant with an element-wise definition instead.
+func (e *Enc) zeroArray(s string) string {
+	z := e.zero(s)
+	if !strings.HasPrefix(z, "zero!") {
+		return "((as const (Array Int " + s + ")) " + z + ")"
+	}
+	n := sym("zeroarr!" + sortSym(s))
+	if _, ok := e.declared[n]; !ok {
+		e.declConst(n, "(Array Int "+s+")")
+		e.assert("(forall ((j Int)) (! (= (select " + n + " j) " + z + ") :pattern ((select " + n + " j))))")
+	}
+	return n
 }
